@@ -240,7 +240,7 @@ def rule_flatten(ctx, r):
                 "flattening of its own attribute", m.where)
 
 
-def rule_one_snapshot(ctx, r):
+def _one_snapshot_structural(ctx, r):
     idx = ctx.index
     cfs = idx.cls(f"{CORE}:CachedFilesystem")
     lk = idx.method(cfs, "_lookup_file")
@@ -385,6 +385,13 @@ def rule_spec_clause(ctx, r):
             "the recorded hashes of earlier invocations are not loaded: every target looks never-recorded", fsh.where)
     from .persist import rule_store_load
     rule_store_load(ctx, r, ("spec hashes",))
+
+
+def rule_one_snapshot(ctx, r):
+    from .evalhelpers import cached_witness, cached_fs_witness, report_witness
+    w = cached_witness(ctx, "cached-fs", cached_fs_witness)
+    ctx.guarded(r, _one_snapshot_structural, w, "src/gwf/core.py::CachedFilesystem", pred=lambda c: "CachedFilesystem" in c)
+    report_witness(r, "src/gwf/core.py::CachedFilesystem::witnesses", "src/gwf/core.py:1", w, "one stat per path and instance, st_mtime of the file a path denotes, missing files, independent instances")
 
 
 def _sr_witness(ctx):
